@@ -284,12 +284,6 @@ theorem zero_weight_never_inserted_M (H : Ham) (β : Rat) (L : Nat) (st : List B
       linarith
     · simp at h
 
-theorem getD_nonneg (bw : BW) (hbw : ∀ w ∈ bw, 0 ≤ w) (i : Nat) : 0 ≤ bw.getD i 0 := by
-  rw [List.getD_eq_getElem?_getD]
-  cases hget : bw[i]? with
-  | none => simp
-  | some x => simp only [Option.getD_some]; exact hbw x (List.mem_of_getElem? hget)
-
 theorem zero_weight_never_inserted_HB (H : Ham) (bw : BW) (β : Rat) (L : Nat) (st : List Bool) (n : Nat)
     (rs : RS) (hbw : ∀ w ∈ bw, 0 ≤ w) (op : Op)
     (h : (heatBathSlot H bw β L none st n rs).slot = some op) :
